@@ -20,7 +20,7 @@ LEVEL_TEXT = ("Held on every returning call of every removal history of this run
               "call that raises). Sampled over graphs; each history is checked step by step.")
 LEVEL_NOTE = ("The removed arc is judged against calculate_intersection_score evaluated on a deep copy of the pre-call latter map "
               "(the property defines the arc by the library's own score). Calls that raise are not judged; the history ends there.")
-PLAN = {"quick": dict(shards=16, budget=130), "thorough": dict(shards=32, budget=500)}
+PLAN = {"quick": dict(shards=16, budget=130), "thorough": dict(shards=16, budget=500)}
 RULE = ("History: G = generated graph (k = 2..4, t = 1..3), views (accessor, latter map); remove_nasty_arc(views, flags) repeated on "
         "the returned views until it raises. Per returning call: exactly one accessor entry changed, from an arc to -1; its score "
         "in calculate_intersection_score(copy of pre-call map, k, flags) equals the maximum; the reported (former, latter) is that "
